@@ -14,7 +14,7 @@ pub struct C02;
 
 const KEYS: &[&str] = &["a", "b", "c", "d", "e", "A", "a1", "k_2", "\u{e5}"];
 const ODD_KEYS: &[&str] = &["a b", "", "a.b", "0"];
-const NUMS: &[&str] = &["0", "1", "-1", "42", "1.0", "1e2", "-0", "1.5", "-2.5e-3", "9223372036854775807", "9223372036854775808", "-9223372036854775808", "-9223372036854775809", "18446744073709551615", "18446744073709551616", "1e400", "-1e400", "1E5", "0.1", "123456789012345678901234567890", "7", "3", "1.8e306", "9007199254740993.0", "0.30000000000000004", "2.2250738585072011e-308", "1.7976931348623157e308", "4.35", "123456789.12345678901234567890", "5e-324", "2.4703282292062327e-324", "8.5e-325"];
+const NUMS: &[&str] = &["0", "1", "-1", "42", "9007199254740993", "-9007199254740995", "9223372036854775806", "4611686018427387905", "-4611686018427387907", "9007199254740992", "18014398509481985", "1.0", "1e2", "-0", "1.5", "-2.5e-3", "9223372036854775807", "9223372036854775808", "-9223372036854775808", "-9223372036854775809", "18446744073709551615", "18446744073709551616", "1e400", "-1e400", "1E5", "0.1", "123456789012345678901234567890", "7", "3", "1.8e306", "9007199254740993.0", "0.30000000000000004", "2.2250738585072011e-308", "1.7976931348623157e308", "4.35", "123456789.12345678901234567890", "5e-324", "2.4703282292062327e-324", "8.5e-325"];
 
 /// a number token: from the pool, or a REAL with 16-20 significant digits and any exponent (decoders that round approximately differ from the nearest double there)
 fn gen_num(rng: &mut Rng) -> String {
